@@ -231,6 +231,12 @@ theorem acct_tighten {w : World} {t : Option Nat} (s : Nat) (hA : Acct t w) (ht 
   · have : decide (t = some i) = false := by simpa using ht.oth i hi
     rw [this] at h0; simpa using h0
 
+theorem acct_hstat {w : World} {t : Option Nat} (f : Nat → Int) (hA : Acct t w) : Acct t { w with hstat := f } :=
+  acct_frame hA rfl rfl (fun _ => rfl) (fun _ => rfl) (fun _ _ => rfl) (fun _ _ => rfl) rfl rfl rfl rfl rfl
+
+theorem acct_pstat {w : World} {t : Option Nat} (f : Nat → Nat → Int) (hA : Acct t w) : Acct t { w with pstat := f } :=
+  acct_frame hA rfl rfl (fun _ => rfl) (fun _ => rfl) (fun _ _ => rfl) (fun _ _ => rfl) rfl rfl rfl rfl rfl
+
 theorem acct_hostAssign {w : World} {t : Option Nat} (s h : Nat) (hA : Acct t w) (ht : TOk t s)
     (hh : ∀ c, w.slot s = some c → c.link.host = none) :
     Acct t (hostAssign w s h) := by
@@ -243,9 +249,11 @@ theorem acct_hostAssign {w : World} {t : Option Nat} (s h : Nat) (hA : Acct t w)
       cases hp : c.link.proc with
       | none => rfl
       | some p => have := hok.1 (by simp [hp]); simp [hnone] at this
-    have e : hostAssign w s h = (w.updLink s fun l => { l with host := some h }).updHost h fun H =>
-      { H with load := H.load + 1, statLoad := H.load + 1 } := by simp [hostAssign, hs]
+    have e : hostAssign w s h = setHostLoad (w.updLink s fun l => { l with host := some h }) h
+        ((w.host h).load + 1) := by simp [hostAssign, hs]
     rw [e]
+    unfold setHostLoad
+    refine acct_hstat _ ?_
     refine acct_link s c { c with link := { c.link with host := some h } } hA hs ?_ rfl ?_ ?_ ?_ ?_ ?_ ?_ ?_ ?_ ht.oth
     · simp [World.updHost, World.updLink]; exact updSlot_some _ hs
     · intro h'; simp [World.updHost, World.updLink, World.updSlot, hostC, hnone]
@@ -272,11 +280,11 @@ theorem acct_procAcquire {w : World} {t : Option Nat} (s h p : Nat) (hA : Acct t
       | false => rfl
       | true => have := hok.2 hf; simp [hproc] at this
     have e : procAcquire w s h p =
-        { ((w.updLink s fun l => { l with proc := some p }).updProc h p fun P =>
-            { P with load := P.load + 1, statLoad := P.load + 1 }) with
+        { (setProcLoad (w.updLink s fun l => { l with proc := some p }) h p ((w.proc h p).load + 1)) with
           globalActive := w.globalActive + 1 } := by simp [procAcquire, hs]; rfl
     rw [e]
     refine acct_link s c { c with link := { c.link with proc := some p } } hA hs ?_ rfl ?_ ?_ ?_ ?_ ?_ ?_ ?_ ?_ ht.oth
+    all_goals simp only [setProcLoad]
     · simp [World.updProc, World.updLink]; exact updSlot_some _ hs
     · intro h'; simp [World.updProc, World.updLink, World.updSlot, hostC]
     · intro h'; simp [World.updProc, World.updLink, World.updSlot, hA.hostStat]
@@ -352,8 +360,8 @@ theorem backendClose_slot {w : World} {t : Option Nat} (s : Nat) (c : Ctx) (hA :
   have hok := hA.slots s c hs
   funext i
   rcases slot_shapes hok with ⟨hh, hp, hfd⟩ | ⟨h, hh, hp, hfd⟩ | ⟨h, p, hh, hp, hfd⟩ | ⟨h, p, hh, hp, hfd⟩ <;>
-    simp [backendClose, hs, hfd, hh, hp, World.updLink, World.updAux, World.updSlot, World.updHost,
-      World.updProc, closedCtx] <;>
+    simp [backendClose, setHostLoad, setProcLoad, hs, hfd, hh, hp, World.updLink, World.updAux, World.updSlot,
+      World.updHost, World.updProc, closedCtx] <;>
     by_cases hi : i = s <;> simp [hi, hs]
   cases c; rename_i l a; cases l; simp_all
 
@@ -371,8 +379,8 @@ theorem acct_backendClose {w : World} {t : Option Nat} (s : Nat) (hA : Acct t w)
       rcases slot_shapes hok with ⟨hh, hp, hfd⟩ | ⟨h, hh, hp, hfd⟩ | ⟨h, p, hh, hp, hfd⟩ | ⟨h, p, hh, hp, hfd⟩
     all_goals (try intro h'); (try intro p')
     all_goals
-      simp [backendClose, hs, hfd, hh, hp, World.updLink, World.updAux, World.updSlot, World.updHost,
-        World.updProc, closedCtx, hostC, procC, anyProcC, fdC, hA.hostStat, hA.procStat]
+      simp [backendClose, setHostLoad, setProcLoad, hs, hfd, hh, hp, World.updLink, World.updAux, World.updSlot,
+        World.updHost, World.updProc, closedCtx, hostC, procC, anyProcC, fdC, hA.hostStat, hA.procStat]
     all_goals first
       | omega
       | exact ⟨by simp, by simp, by simp⟩
@@ -562,7 +570,9 @@ theorem lk_hostAssign (w : World) (s h : Nat) :
   unfold hostAssign
   cases hs : w.slot s with
   | none => simp [lk, hs]
-  | some c => simp [lk_updLink]
+  | some c =>
+    have : ∀ (W : World) (v : Int), lk (setHostLoad W h v) s = lk W s := fun _ _ => rfl
+    simp [this, lk_updLink]
 
 theorem lk_backendClose {w : World} {t : Option Nat} (s : Nat) (hA : Acct t w) :
     lk (backendClose w s) s = (lk w s).map fun l => { l with fd := false, proc := none, host := none } := by
@@ -759,7 +769,7 @@ theorem lk_procAcquire (w : World) (s h p : Nat) :
   unfold procAcquire
   cases hs : w.slot s with
   | none => simp [lk, hs]
-  | some c => simp [lk, hs, World.updLink, World.updSlot, World.updProc]
+  | some c => simp [lk, hs, setProcLoad, World.updLink, World.updSlot, World.updProc]
 
 theorem lk_openFd (w : World) (s : Nat) :
     lk (openFd w s) s = (lk w s).map fun l => { l with fd := true } := by
@@ -782,13 +792,15 @@ theorem acct_wrConnect {w : World} (s h p : Nat) (hA : Acct (some s) w) :
   obtain ⟨sc, e⟩ := popConn_eq w
   unfold wrConnect; dsimp only
   rw [e]
-  have A1 : Acct (some s) ({ w with script := sc }.emit (.dispatch s h p)) := acct_emit _ (acct_script _ hA)
-  generalize ({ w with script := sc }.emit (.dispatch s h p)) = W at A1 ⊢
+  have A1 : Acct (some s) (({ w with script := sc }.emit (.dispatch s h p)).updAux s
+      fun a => { a with dispatched := a.dispatched + 1 }) :=
+    acct_updAux _ _ (acct_emit _ (acct_script _ hA)) hto
+  generalize (({ w with script := sc }.emit (.dispatch s h p)).updAux s
+      fun a => { a with dispatched := a.dispatched + 1 }) = W at A1 ⊢
   split
   · -- connected at once: state leaves INIT before anything else happens
     unfold wrConnected
-    have A2 : Acct none ((W.updAux s fun a => { a with reconnects := 0 }).updLink s
-        fun l => { l with state := .prepareWrite }) := by
+    have A2 : Acct none (W.updLink s fun l => { l with state := .prepareWrite }) := by
       refine acct_tighten' s (t := some s) ?_ ht ?_
       · acct_close
       · intro l hl
